@@ -446,3 +446,17 @@ package keeper
 //@   ensures[C01.dt.pool]   err == nil && !notGenesis ==> val(params.OpAmount) > 0 &&
 //@        pT(ctx, params.OperatorAddress, duAsset(params)) == old(pT(ctx, params.OperatorAddress, duAsset(params))) + val(params.OpAmount)
 //@   before[C01.dt.enough]  UpdateStakerAssetState requires val(res_GetStakerSpecifiedAssetInfo_0.WithdrawableAmount) >= val(params.OpAmount) && val(params.OpAmount) > 0
+
+// ---------------------------------------------------------------------------------------------
+// C02 (the operator's self-share equals the sum over the delegators associated with it): when a staker is associated
+// with an operator, EVERY delegation of that staker to that operator is added to the operator's self-share: the
+// visitor adds the delegation's share for a matching operator, adds nothing otherwise, and never stops the iteration
+// except on an error.
+//@ func (*Keeper).AssociateOperatorWithStaker$1
+//@   requires keys != nil && amounts != nil && !isnil(amounts.UndelegatableShare) && len(operatorAddress) > 0
+//@   requires err == nil
+//@   modifies state(ctx)
+//@   ensures[C02.aows.all]   err == nil ==> !r0
+//@   ensures[C02.aows.share] err == nil && keys.OperatorAddr == accstr(operatorAddress) ==>
+//@        opSelf(ctx, accstr(operatorAddress), keys.AssetID) == old(opSelf(ctx, accstr(operatorAddress), keys.AssetID)) + val(amounts.UndelegatableShare)
+//@   ensures[C02.aows.other] keys.OperatorAddr != accstr(operatorAddress) ==> state(ctx) == old(state(ctx)) && err == nil
